@@ -47,3 +47,18 @@ Theorem C12_reads_only_when_needed : forall fuel s r s',
        packet (s_lim s) (s_buf s ++ concat chunks) = PDone q p (s_buf s')) /\
     (r = ROk None \/ r = RErr EUnexpectedEof -> needs_input (s_lim s) (s_buf s ++ concat chunks) = true).
 Proof. exact next_reads_only_when_needed. Qed.
+
+(* ... and the same threaded through the whole run loop: while serving ANY conversation under ANY
+   chunking the server reads only while the received-and-unconsumed bytes hold no complete command;
+   each command is taken up as soon as the chunk completing it has arrived *)
+From MsqlVerif Require Import Proofs.ServerReads.
+Theorem C12_conversation_reads_only_when_needed : forall fpext fptrunc errtab cmds ss0 reps ss1 fuel s,
+  wf_conn s -> Forall (fun c => fst c < 256) cmds ->
+  inbound s = frames (s_lim s) cmds ->
+  abs_run fpext fptrunc errtab cmds ss0 = Some (reps, ss1) ->
+  (length cmds < fuel)%nat ->
+  exists s' cks,
+    run_f fpext fptrunc errtab fuel ss0 s = (ROk tt, s') /\
+    s_reads s = map RdData (concat cks) /\
+    conv_reads (s_lim s) (s_buf s) cmds cks.
+Proof. exact run_reads_needed. Qed.
